@@ -5,6 +5,7 @@ import GasolVerif.Models.Cost
 import GasolVerif.Models.Asm
 import GasolVerif.Models.Spec
 import GasolVerif.Models.SpecSem
+import GasolVerif.Models.PlainIO
 open GasolVerif
 
 def parseWords? (s : String) : Option (List Word) :=
@@ -78,6 +79,8 @@ def handle (line : String) : String :=
     | none => "error:parse"
   | ["SPECCHK", block, src, tgt, instrs, deps, scheds] => Spec.handleSpecChk norm3 block src tgt instrs deps scheds
   | ["REALIZES", src, tgt, instrs, deps, ids] => Spec.handleRealizes src tgt instrs deps ids
+  | ["PLAINPARSE", text] => Plain.handlePlainParse text
+  | ["PLAINPRINT", p0, items] => Plain.handlePlainPrint p0 items
   | _ => "error:unknown-request"
 
 partial def loop (h : IO.FS.Stream) (out : IO.FS.Stream) : IO Unit := do
